@@ -7,7 +7,7 @@ CHECKS = {
              "(stale tables kept as state) and checks soundness, ordering and exactness of known rows; recorded histories of the real "
              "IncompleteCooperativeGame (n=2..6; integer/dyadic/negative/tiny-magnitude/float games; reveal, un-reveal, set, unset, bulk set, bulk reset, compute) are validated step by step against the same specification, "
              "the soundness clauses being evaluated on the logged tables against the hidden game.",
-        note="exhaustive only within the model constants (n=3 full history graph, n=4 reduced); beyond that sampled traces; float games compared on a 2^-16 grid (1 unit tolerance)"),
+        note="exhaustive only within the model constants (n=3 full history graph, n=4 reduced); beyond that sampled traces up to n=8 (short histories at n=7, 8, where 2^n passes 64 and 128); float games compared on a 2^-16 grid (1 unit tolerance)"),
     "C02": dict(
         level="model_checking", design="§5 C02", technique="TLA+ definitional layer (BestPartition / UpperDef / brute-force completions) checked by TLC against the algorithmic layer, + trace validation of the real computers",
         text="TLC proves on every (lattice game, knowledge set, history) of the model that the algorithmic bounds equal the best-partition / "
@@ -56,7 +56,7 @@ CHECKS = {
              "done semantics, reset drawing one new game; real environments (built directly on exact games and through ModelInstance.get_env() for the registered "
              "generator families) are driven through random non-LIFO step/unstep/reset walks and every returned observation, reward, done flag, info id, mask and the "
              "public state are validated event by event; TLC-simulated behaviours are executed on a real ICG_Gym fed with the model's games.",
-        note="n<=5 on the real code; float families on a grid with stated tolerances; actions are valid ones (the property's premise)"),
+        note="n<=5 on the real code plus short episodes at n=7, 8; float families on a grid with stated tolerances; actions are valid ones (the property's premise)"),
     "C13": dict(
         level="model_checking", design="§5 C13", technique="TLC undo invariant at every reachable environment state (MC_Gym) + trace validation of solver queries with observed reward ranks and of the expected-greedy search against the exhaustive optimum (Trace_Gym, Trace_Search)",
         text="At every state of recorded walks the driver probes each valid action through the public step/unstep API (logged as ordinary events, so the undo "
@@ -132,7 +132,7 @@ CHECKS = {
              "1..4 (quick) / 1..16 (thorough) processes on exact games with random starting knowledge, size limits, all gaps and computers: TLC demands every reveal set exactly once, each "
              "reported gap = gap of exactly that knowledge (certified integer numerators), bit-identical results across process counts; MetaGame.get_value returns the same quantity; the sampling and stacked forms report, per sampled/given game, the gap of exactly that knowledge; "
              "best-states rows are the per-game gaps of a set of that size attaining the minimum mean, with a non-increasing curve for in-class games.",
-        note="real pool schedules are not controllable (covered on the model); n=3,4"),
+        note="real pool schedules are not controllable (covered on the model); n=3,4; best-states and expected-greedy also on games far outside the class (norm gaps), where the curve is not monotone"),
     "C12": dict(
         level="model_checking", design="§5 C12", technique="TLC on MC_Evaluate (Pool.starmap model with pickled generator copies, all schedules) + trace validation of real evaluate() runs with worker-side recording of the hidden games (Trace_Evaluate)",
         text="TLC explores every schedule of evaluate() over the process-pool model (environments built in the parent, chunks pickled after the list exists, workers taking chunks in any "
@@ -140,7 +140,8 @@ CHECKS = {
              "the pre-repair mechanism (hidden game drawn in the worker from the chunk's pickled generator copy) is kept as a second mode that TLC must find violating. Real evaluate() runs "
              "(4 solvers x exact and continuous generators x seeds x 1/3/8(/24) repetitions x 1..4 (quick) / 1..16 (thorough) processes) record each repetition's hidden game inside the worker; "
              "TLC recomputes every gap curve from the recorded game and actions (row 0 = minimal information, row t+1 after the t-th recorded coalition, distinct explorable ids, early stop only "
-             "when done), demands pairwise distinct games on continuous generators and bit-identical matrices and games for every process count.",
+             "when done), demands pairwise distinct games on continuous generators and bit-identical matrices and games for every process count. The `solve` COMMAND is traced too: the argument "
+             "parser, ModelInstance.from_parsed_arguments, solve_func, save and data.json read back must hand on exactly what the direct evaluate() of the same configuration returns.",
         note="schedules of the real pool are not controllable; independence is judged as 'no two repetitions see the same continuous-valued game'"),
     "C14": dict(
         level="model_checking", design="§5 C14", technique="TLC on MC_Regret with exact rationals (all iteration histories, n=3; table-domain and ranking invariants n=4) + trace validation of real GameRegretMinimizer runs, with refinement against the exact model for n=3 (Trace_Regret)",
